@@ -11,7 +11,9 @@ const (
 // prng is SplitMix64.
 type prng struct{ x uint64 }
 
+//go:norace
 func (p *prng) seed(s uint64) { p.x = s + 0x9e3779b97f4a7c15 }
+//go:norace
 func (p *prng) next() uint64 {
 	p.x += 0x9e3779b97f4a7c15
 	z := p.x
@@ -19,15 +21,18 @@ func (p *prng) next() uint64 {
 	z = (z ^ (z >> 27)) * 0x94d049bb133111eb
 	return z ^ (z >> 31)
 }
+//go:norace
 func (p *prng) intn(n int) int {
 	if n <= 1 {
 		return 0
 	}
 	return int(p.next() % uint64(n))
 }
+//go:norace
 func (p *prng) float() float64 { return float64(p.next()>>11) / (1 << 53) }
 
 // Mix derives a sub-seed.
+//go:norace
 func Mix(a, b uint64) uint64 {
 	var p prng
 	p.seed(a ^ (b * 0xd6e8feb86659fd93))
@@ -37,6 +42,7 @@ func Mix(a, b uint64) uint64 {
 // chooseLocked returns a value in [0,n). Replay: from the tape (values beyond the end
 // are 0, values >= n are reduced). Record: for n==2 with p<1, 1 with probability p;
 // otherwise uniform; the value is appended to the tape.
+//go:norace
 func (s *Sim) chooseLocked(kind, n int, p float64) int {
 	if n <= 1 {
 		return 0
@@ -67,6 +73,7 @@ func (s *Sim) chooseLocked(kind, n int, p float64) int {
 
 // pickLocked chooses which enabled worker runs next (index into e; e[0] is the
 // worker that ran last if it is still enabled).
+//go:norace
 func (s *Sim) pickLocked(e []*worker) int {
 	n := len(e)
 	if n <= 1 {
@@ -95,6 +102,7 @@ func (s *Sim) pickLocked(e []*worker) int {
 }
 
 // pctPick: PCT-style random priorities with a few priority-change points.
+//go:norace
 func (s *Sim) pctPick(e []*worker) int {
 	if s.pctPrio == nil {
 		s.pctPrio = map[string]int{}
@@ -127,6 +135,7 @@ func (s *Sim) pctPick(e []*worker) int {
 
 // SelectOrder yields, then returns a controller-chosen order in which the cases of a
 // select statement are polled (identity permutation = boring choice 0).
+//go:norace
 func SelectOrder(site string, n int) []int {
 	s := cur()
 	out := make([]int, n)
@@ -140,27 +149,28 @@ func SelectOrder(site string, n int) []int {
 	if n <= 1 {
 		return out
 	}
-	s.mu.Lock()
+	ilock(&s.mu)
 	// Fisher-Yates driven by choices; choice 0 keeps the element in place.
 	for i := 0; i < n-1; i++ {
 		j := i + s.chooseLocked(kSelect, n-i, 1)
 		out[i], out[j] = out[j], out[i]
 	}
-	s.mu.Unlock()
+	iunlock(&s.mu)
 	return out
 }
 
 // ---------------------------------------------------------------------------
 // math/rand seam
 
+//go:norace
 func randU64() uint64 {
 	s := cur()
 	if s == nil {
 		return fallbackRand.next()
 	}
-	s.mu.Lock()
+	ilock(&s.mu)
 	v := s.randRng.next()
-	s.mu.Unlock()
+	iunlock(&s.mu)
 	return v
 }
 
@@ -170,12 +180,15 @@ type lockedPrng struct {
 	p prng
 }
 
+//go:norace
 func (l *lockedPrng) next() uint64 { return l.p.next() }
 
 // RandSeed replaces rand.Seed: the stream is owned by the simulator.
+//go:norace
 func RandSeed(int64) {}
 
 // RandIntn replaces rand.Intn.
+//go:norace
 func RandIntn(n int) int {
 	if n <= 0 {
 		panic("invalid argument to Intn")
@@ -184,6 +197,7 @@ func RandIntn(n int) int {
 }
 
 // RandInt63n replaces rand.Int63n.
+//go:norace
 func RandInt63n(n int64) int64 {
 	if n <= 0 {
 		panic("invalid argument to Int63n")
@@ -192,24 +206,31 @@ func RandInt63n(n int64) int64 {
 }
 
 // RandInt31n replaces rand.Int31n.
+//go:norace
 func RandInt31n(n int32) int32 { return int32(RandInt63n(int64(n))) }
 
 // RandInt63 replaces rand.Int63.
+//go:norace
 func RandInt63() int64 { return int64(randU64() >> 1) }
 
 // RandInt replaces rand.Int.
+//go:norace
 func RandInt() int { return int(randU64() >> 1) }
 
 // RandUint32 replaces rand.Uint32.
+//go:norace
 func RandUint32() uint32 { return uint32(randU64() >> 32) }
 
 // RandUint64 replaces rand.Uint64.
+//go:norace
 func RandUint64() uint64 { return randU64() }
 
 // RandFloat64 replaces rand.Float64.
+//go:norace
 func RandFloat64() float64 { return float64(randU64()>>11) / (1 << 53) }
 
 // RandRead replaces rand.Read.
+//go:norace
 func RandRead(p []byte) (int, error) {
 	for i := range p {
 		p[i] = byte(randU64())
